@@ -450,8 +450,10 @@ Proof.
   intros H s. unfold lookup_acm_size. destruct (has_len h 32) eqn:E; [apply has_len_true in E; lia | reflexivity].
 Qed.
 
-Theorem acm_info_nopanic fx t : nopanic (acm_info fx t). Proof. unfold acm_info. np. Qed.
-Theorem acm_info_nofuel fx t : nofuel (acm_info fx t). Proof. unfold acm_info. nf. Qed.
+Theorem acm_info_w_nopanic pw fx t : nopanic (acm_info_w pw fx t). Proof. unfold acm_info_w. np. Qed.
+Theorem acm_info_w_nofuel pw fx t : nofuel (acm_info_w pw fx t). Proof. unfold acm_info_w. nf. Qed.
+Theorem acm_info_nopanic fx t : nopanic (acm_info fx t). Proof. apply acm_info_w_nopanic. Qed.
+Theorem acm_info_nofuel fx t : nofuel (acm_info fx t). Proof. apply acm_info_w_nofuel. Qed.
 (** user area: 48 zero bytes (all list offsets 0); module: Chipsets.Count = 0x08000000 *)
 Lemma acm_info_allocates :
   2147483648 <= res_alloc (run (acm_info legacy [0; 0; 0; 8]) (repeat 0 48)).
@@ -1600,12 +1602,23 @@ Proof.
   apply read_le_value in E. destruct HR as [R1 R2]. specialize (Hf v E s1 R2). destruct (f v s1); auto; lia.
 Qed.
 
-(** [if count*elem > buf.Len() { return error }; make([]T, count); binary.Read] *)
-Lemma AB_capped T K fx c e {B} (f : list Z -> rd B) :
-  fx_cap fx = true -> 0 < e -> 0 <= T -> 0 <= K -> (forall l, AB T K (f l)) ->
-  AB T (2 * T + K) (bind (cap_guard fx (c * e)) (fun _ => bind (alloc c e) (fun _ => bind (read_slice (c * e)) f))).
+(** the product of a count below 2^32 and an entry size is what the machine
+    computes whenever it fits the width of the multiplication *)
+Lemma mul_w_exact w c e : 0 <= c -> 0 <= e -> c * e < 2 ^ w -> mul_w w c e = c * e.
+Proof. intros Hc He H. unfold mul_w. apply Z.mod_small. nia. Qed.
+
+(** ... and only then: in 32 bits 0x10000000 entries of 16 bytes are "0 bytes" *)
+Lemma mul_w_wraps : mul_w 32 268435456 16 = 0 /\ mul_w 32 178956971 24 = 8 /\ mul_w 64 268435456 16 = 4294967296.
+Proof. vm_compute. repeat split. Qed.
+
+(** [if uintW(count)*uintW(elem) > buf.Len() { return error }; make([]T, count); binary.Read]
+    with a product that does not wrap *)
+Lemma AB_capped T K fx pw c e {B} (f : list Z -> rd B) :
+  fx_cap fx = true -> 0 <= c -> 0 < e -> c * e < 2 ^ pw -> 0 <= T -> 0 <= K -> (forall l, AB T K (f l)) ->
+  AB T (2 * T + K) (bind (cap_guard fx (mul_w pw c e)) (fun _ => bind (alloc c e) (fun _ => bind (read_slice (c * e)) f))).
 Proof.
-  intros Hfx He HT HK Hf s Hs. unfold bind at 1. unfold cap_guard. rewrite Hfx. cbn [andb].
+  intros Hfx Hc He Hw HT HK Hf s Hs. rewrite mul_w_exact by lia.
+  unfold bind at 1. unfold cap_guard. rewrite Hfx. cbn [andb].
   destruct (has_len (s_rest s) (c * e)) eqn:HL; cbn [negb]; [|lia].
   apply has_len_true in HL.
   assert (HA : Z.max 0 c * e <= T) by nia.
@@ -1616,24 +1629,30 @@ Proof.
   destruct (bind (alloc c e) _ s); auto; lia.
 Qed.
 
-Theorem acm_info_alloc fx total user : fx_cap fx = true ->
-  res_alloc (run (acm_info fx total) user) <= 5 * Z.max (lenZ user) (lenZ total) + 262140.
+(** the bound holds for every width of the guard products from 37 bits on
+    (2^32 counts of 24 bytes): in particular for the uint64 of the code *)
+Theorem acm_info_w_alloc pw fx total user : fx_cap fx = true -> 37 <= pw ->
+  res_alloc (run (acm_info_w pw fx total) user) <= 5 * Z.max (lenZ user) (lenZ total) + 262140.
 Proof.
-  intros Hfx. set (T := Z.max (lenZ user) (lenZ total)).
+  intros Hfx Hpw. set (T := Z.max (lenZ user) (lenZ total)).
   assert (HT : 0 <= T) by (unfold T, lenZ; lia).
   assert (HW : lenZ total <= T) by (unfold T; lia).
-  assert (H : AB T (5 * T + 262140) (acm_info fx total)).
-  { unfold acm_info. cbv zeta.
-    replace (5 * T + 262140) with (0 + (Z.max 0 (lenZ total) * 1 + (0 + (0 + (2 * T + (0 + (0 + (2 * T + (4 * T - Z.max 0 (lenZ total) * 1 - 4 * T + T + 262140))))))))) by lia.
-    apply AB_bind; [unfold lenZ in *; lia | now apply AB_read_n | intros info].
-    apply AB_bind; [unfold lenZ in *; lia | apply AB_alloc | intros _].
-    apply AB_bind; [unfold lenZ in *; lia | now apply AB_seek | intros _].
-    apply AB_bind; [unfold lenZ in *; lia | now apply AB_read_le | intros c1].
-    apply AB_capped; [exact Hfx | lia | exact HT | unfold lenZ in *; lia | intros l1].
-    apply AB_bind; [unfold lenZ in *; lia | now apply AB_seek | intros _].
-    apply AB_bind; [unfold lenZ in *; lia | now apply AB_read_le | intros c2].
-    apply AB_capped; [exact Hfx | lia | exact HT | unfold lenZ in *; lia | intros l2].
-    eapply AB_weaken; [|instantiate (1 := 0 + (0 + (131070 + 131070))); unfold lenZ in *; lia].
+  assert (HP : 2 ^ 37 <= 2 ^ pw) by (apply Z.pow_le_mono_r; lia).
+  change (2 ^ 37) with 137438953472 in HP.
+  assert (H : AB T (5 * T + 262140) (acm_info_w pw fx total)).
+  { unfold acm_info_w. cbv zeta.
+    set (A := Z.max 0 (lenZ total) * 1).
+    assert (HA : 0 <= A <= T) by (unfold A, lenZ in *; lia).
+    replace (5 * T + 262140) with (0 + (A + (0 + (2 * T + (0 + (2 * T + (T - A + 262140))))))) by lia.
+    apply AB_bind; [lia | now apply AB_read_n | intros info].
+    apply AB_bind; [lia | apply AB_alloc | intros _].
+    apply AB_bind; [lia | now apply AB_seek | intros _].
+    apply AB_bind_le; [exact HT | lia | intros c1 Hc1]. change (256 ^ Z.max 0 4) with 4294967296 in Hc1.
+    apply AB_capped; [exact Hfx | lia | lia | lia | exact HT | lia | intros l1].
+    apply AB_bind; [lia | now apply AB_seek | intros _].
+    apply AB_bind_le; [exact HT | lia | intros c2 Hc2]. change (256 ^ Z.max 0 4) with 4294967296 in Hc2.
+    apply AB_capped; [exact Hfx | lia | lia | lia | exact HT | lia | intros l2].
+    eapply AB_weaken; [|instantiate (1 := 0 + (0 + (131070 + 131070))); lia].
     apply AB_bind; [lia | now apply AB_seek | intros _].
     apply AB_bind; [lia | now apply AB_read_le | intros caps].
     apply AB_bind_le; [exact HT | lia | intros c3 Hc3]. change (256 ^ Z.max 0 2) with 65536 in Hc3.
@@ -1642,9 +1661,21 @@ Proof.
     apply AB_bind; [lia | now apply AB_read_slice | intros; apply AB_ret]. }
   unfold run. specialize (H (mkSt user 0 0)). cbn [s_rest s_alloc] in H.
   assert (HU : lenZ user <= T) by (unfold T; lia). specialize (H HU).
-  destruct (acm_info fx total (mkSt user 0 0)); cbn [res_alloc]; lia.
+  destruct (acm_info_w pw fx total (mkSt user 0 0)); cbn [res_alloc]; lia.
 Qed.
 
+Theorem acm_info_alloc fx total user : fx_cap fx = true ->
+  res_alloc (run (acm_info fx total) user) <= 5 * Z.max (lenZ user) (lenZ total) + 262140.
+Proof. intros Hfx. unfold acm_info. apply acm_info_w_alloc; [exact Hfx | lia]. Qed.
+
+(** with 32-bit products the same guards do not bound anything: the 8-byte
+    module below announces 0x10000000 chipset IDs, 16 * 0x10000000 = 0 (mod 2^32)
+    passes the guard and 8 GiB are requested (the slice and the scratch buffer of
+    binary.Read); the second one announces 0x0AAAAAAB processor IDs of 24 bytes *)
+Definition acm_wrap_user : list Z := repeat 0 48.
+Definition acm_wrap_chipsets : list Z := [0; 0; 0; 16; 0; 0; 0; 0].
+Definition acm_wrap_processors : list Z := [0; 0; 0; 0; 171; 170; 170; 10; 0; 0; 0; 0; 0; 0; 0; 0].
+Definition acm_wrap_user2 : list Z := repeat 0 40 ++ [4; 0; 0; 0] ++ repeat 0 4.
 
 (** * The statements of Props/C15.v *)
 
@@ -1705,6 +1736,21 @@ Proof. intros. apply voe_run; [apply acm_info_nopanic | apply acm_info_nofuel]. 
 Lemma P_acm_info_alloc : forall total user,
   res_alloc (run (acm_info faithful total) user) <= 5 * Z.max (lenZ user) (lenZ total) + 262140.
 Proof. intros. now apply acm_info_alloc. Qed.
+Lemma P_acm_info_alloc_any_wide : forall pw total user, 37 <= pw ->
+  res_alloc (run (acm_info_w pw faithful total) user) <= 5 * Z.max (lenZ user) (lenZ total) + 262140.
+Proof. intros. now apply acm_info_w_alloc. Qed.
+Lemma P_acm_info_alloc_needs_wide_product :
+  (exists total user, lenZ total = 8 /\ lenZ user = 48 /\
+     8589934592 <= res_alloc (run (acm_info_w 32 faithful total) user) /\
+     outcome_of (run (acm_info faithful total) user) = Err E_FIX /\ res_alloc (run (acm_info faithful total) user) = 8) /\
+  (exists total user, lenZ total = 16 /\ lenZ user = 48 /\
+     8589934592 <= res_alloc (run (acm_info_w 32 faithful total) user) /\
+     outcome_of (run (acm_info faithful total) user) = Err E_FIX /\ res_alloc (run (acm_info faithful total) user) = 16).
+Proof.
+  split.
+  - exists acm_wrap_chipsets, acm_wrap_user. vm_compute. repeat split; try reflexivity; discriminate.
+  - exists acm_wrap_processors, acm_wrap_user2. vm_compute. repeat split; try reflexivity; discriminate.
+Qed.
 Lemma P_acm_info_alloc_needs_cap : exists total user, lenZ total = 4 /\ lenZ user = 48 /\
   2147483648 <= res_alloc (run (acm_info legacy total) user) /\ res_alloc (run (acm_info faithful total) user) = 4.
 Proof. exists [0; 0; 0; 8], (repeat 0 48). vm_compute. repeat split; try reflexivity; discriminate. Qed.
